@@ -470,6 +470,23 @@ inline bool mapping_unspecified(int f, const MV& v, bool root) {
     if (root && f == BSON && v.k == MV::Arr) return true;      // the encoder documents a root array in an example; what it decodes to is not stated
     return false;
 }
+inline bool json_number_syntax(const std::string& s) {        // -?(0|[1-9][0-9]*)(\.[0-9]+)?([eE][+-]?[0-9]+)?
+    size_t i = 0, n = s.size();
+    if (i < n && s[i] == '-') ++i;
+    if (i >= n || !isdigit((unsigned char)s[i])) return false;
+    if (s[i] == '0') ++i; else while (i < n && isdigit((unsigned char)s[i])) ++i;
+    if (i < n && s[i] == '.') { ++i; if (i >= n || !isdigit((unsigned char)s[i])) return false; while (i < n && isdigit((unsigned char)s[i])) ++i; }
+    if (i < n && (s[i] == 'e' || s[i] == 'E')) { ++i; if (i < n && (s[i] == '+' || s[i] == '-')) ++i; if (i >= n || !isdigit((unsigned char)s[i])) return false; while (i < n && isdigit((unsigned char)s[i])) ++i; }
+    return i == n;
+}
+// UBJSON writes a bigint / bigdec text verbatim as a high-precision number, which the UBJSON specification defines as a JSON number:
+// a text such as "+1.5", ".5" or "5." (accepted by the CBOR encoder) has no documented UBJSON form
+inline bool ubjson_unspecified(const MV& v) {
+    if (v.k == MV::Str && (v.tag == T_BIGINT || v.tag == T_BIGDEC)) return !json_number_syntax(v.s);
+    for (auto& e : v.a) if (ubjson_unspecified(e)) return true;
+    for (auto& kv : v.o) if (ubjson_unspecified(kv.second)) return true;
+    return false;
+}
 
 // --- counters / reporting -----------------------------------------------------------------------------------------
 struct Ctx {
@@ -514,6 +531,7 @@ inline void run_case(const std::string& mode, int f, int entry, const Opts& o, c
     std::string what = std::string(fmt_name(f)) + " " + entry_name(entry) + " " + o.str() + " value " + short_text(v) + " :: ";
     // ojson looks members up linearly: an object of 65536 members costs seconds per case.  Objects of more than 4096 members are read
     // back into a (sorted) json only, except the 65536-member ones in the thorough tier.
+    if (f == UBJSON && ubjson_unspecified(v)) { out().count("abstained"); out().cls("ubjson:abstain:high-precision-text-not-a-json-number"); return; }
     size_t members = max_members(v);
     bool huge = members > 4096;
     bool huge_into_ojson = ctx().thorough && members == 65536;       // thorough: the 65536-member objects only (about 10 s each on a quiet machine)
